@@ -40,6 +40,8 @@ pub struct GraphOpts {
     /// allow absolute include arguments
     pub absolute: bool,
     pub decoys: bool,
+    /// every run command also leaves an execution marker
+    pub mark_all: bool,
 }
 
 impl Default for GraphOpts {
@@ -54,6 +56,7 @@ impl Default for GraphOpts {
             dotted: true,
             absolute: true,
             decoys: true,
+            mark_all: false,
         }
     }
 }
@@ -280,7 +283,11 @@ pub fn gen_graph_project(rng: &mut Rng, o: &GraphOpts, n: usize, edges: &BTreeSe
             }
             if rng.chance(1, 3) {
                 // the README idiom: a command that reads the dependency output
-                b.push(format!("-TXTPP#run cat {x}"));
+                if o.mark_all {
+                    b.push(format!("-TXTPP#run cat {x}; {}", marker_cmd(&format!("c{i}.{k}"))));
+                } else {
+                    b.push(format!("-TXTPP#run cat {x}"));
+                }
             }
             if o.markers && rng.chance(1, 3) {
                 b.push(format!("-TXTPP#run {}", marker_cmd(&format!("a{i}.{k}"))));
@@ -338,7 +345,12 @@ fn gen_free_element(
                 "printf 'x\\r\\ny\\r\\n'",
                 "printf ''",
             ]);
-            b.push(format!("{ws}{pf}TXTPP#run {c}"));
+            if o.mark_all {
+                let id = format!("r{i}.{}", b.lines.len());
+                b.push(format!("{ws}{pf}TXTPP#run {c}; {}", marker_cmd(&id)));
+            } else {
+                b.push(format!("{ws}{pf}TXTPP#run {c}"));
+            }
         }
         6 => {
             if o.markers && marker_ok {
@@ -380,7 +392,12 @@ fn gen_free_element(
             // tag: create, store (non-empty output), use
             let t = format!("TAG{}", b.lines.len());
             b.push(format!("{pf}TXTPP#tag {t}"));
-            b.push(format!("{pf}TXTPP#run printf 'tagged\\nvalue'"));
+            if o.mark_all {
+                let id = format!("g{i}.{}", b.lines.len());
+                b.push(format!("{pf}TXTPP#run printf 'tagged\\nvalue'; {}", marker_cmd(&id)));
+            } else {
+                b.push(format!("{pf}TXTPP#run printf 'tagged\\nvalue'"));
+            }
             b.push(format!("<{t}>"));
         }
         10 => {
@@ -530,4 +547,47 @@ pub fn pick_policy(rng: &mut Rng) -> Policy {
 
 pub fn pick_sched(rng: &mut Rng, seed: u64) -> Sched {
     Sched::seeded(seed, pick_policy(rng), rng.chance(1, 4))
+}
+
+
+/// F1/F2/F3: make one source erroneous by inserting a bad line. Returns a label of the fault.
+pub fn inject_error(rng: &mut Rng, p: &mut Project, src: &str) -> String {
+    let data = match p.file(src) {
+        Some(d) => d.lossy(),
+        None => return "none".into(),
+    };
+    let eol = crate::spec::line_ending(&data);
+    let mut lines: Vec<String> = crate::spec::split_lines(&data).iter().map(|s| s.to_string()).collect();
+    let kinds = [
+        "tag-while-listening",
+        "prefixless-multiline",
+        "temp-target-txtpp",
+        "include-missing",
+        "command-fails",
+        "unused-tag",
+        "include-directory",
+    ];
+    let kind = *rng.pick(&kinds);
+    let bad: Vec<String> = match kind {
+        "tag-while-listening" => vec!["TXTPP#tag TA".into(), "TXTPP#tag TB".into()],
+        "prefixless-multiline" => vec!["TXTPP#run printf x".into()],
+        "temp-target-txtpp" => vec!["-TXTPP#temp bad.txt.txtpp".into(), "-body".into()],
+        "include-missing" => vec!["TXTPP#include no_such_file.txt".into()],
+        "command-fails" => vec!["-TXTPP#run exit 3".into()],
+        "unused-tag" => vec!["TXTPP#tag NEVERUSED".into(), "-TXTPP#run printf stored".into()],
+        _ => vec!["TXTPP#include .".into()],
+    };
+    let at = if lines.is_empty() { 0 } else { rng.range(1, lines.len()) };
+    let mut guard = vec![];
+    // keep the bad lines from being swallowed as continuation of the element before
+    guard.push("~".to_string());
+    guard.extend(bad);
+    guard.push("~".to_string());
+    for (k, l) in guard.into_iter().enumerate() {
+        lines.insert((at + k).min(lines.len()), l);
+    }
+    let mut text = lines.join(eol);
+    text.push_str(eol);
+    p.set_file(src, B(text.into_bytes()));
+    kind.to_string()
 }
